@@ -321,7 +321,9 @@ func c12Inbound(tunnel bool) func() {
 							src := c12Addrs[k%8]
 							dst := c12Addrs[(k/8)%8]
 							k++
-							var c2 cemi.ControlField2 = cemi.Control2Hops(5)
+							// the low four bits of control field 2 (extended frame format / LTE) vary: what
+							// surfaces depends on the address-type flag alone (seeded change C12-m)
+							var c2 cemi.ControlField2 = cemi.Control2Hops(5) | cemi.ControlField2([]uint8{0, 4, 0x0F, 1}[(k/3)%4])
 							if group {
 								c2 |= cemi.Control2GroupAddr
 							}
